@@ -139,7 +139,7 @@ func (*compiler).createTernary
   inline
 
 // --- unary operators: admissibility and result class come from the shared table in package ast ---
-func (*compiler).VisitUnaryExpr [C02]
+func (*compiler).VisitUnaryExpr [C02, C01]
   cases e.Operator in {ast.UN_ABS, ast.UN_NEGATE, ast.UN_NOT, ast.UN_LOGIC_NOT}
   cases tyClassOf(e.Rhs) in {1, 2, 3, 4}
   requires e != nil && e.OverloadedBy == nil && ast.admissibleUn(e.Operator, tyClassOf(e.Rhs))
@@ -150,7 +150,7 @@ func (*compiler).VisitUnaryExpr [C02]
   replay - replay_templates/c02_unary.sh - : op = e.Operator ; cls = tyClassOf(e.Rhs) ; res = ast.resultUn(e.Operator, tyClassOf(e.Rhs))
 
 // --- binary operators on numbers: shared table in package ast ---
-func (*compiler).VisitBinaryExpr#2 [C02]
+func (*compiler).VisitBinaryExpr#2 [C02, C01]
   cases e.Operator in {ast.BIN_XOR, ast.BIN_PLUS, ast.BIN_MINUS, ast.BIN_MULT, ast.BIN_DIV, ast.BIN_MOD, ast.BIN_LOGIC_AND, ast.BIN_LOGIC_OR, ast.BIN_LOGIC_XOR, ast.BIN_LEFT_SHIFT, ast.BIN_RIGHT_SHIFT, ast.BIN_LESS, ast.BIN_GREATER, ast.BIN_LESS_EQ, ast.BIN_GREATER_EQ}
   cases tyClassOf(e.Lhs) in {1, 2, 3, 4}
   cases tyClassOf(e.Rhs) in {1, 2, 3, 4}
@@ -162,7 +162,7 @@ func (*compiler).VisitBinaryExpr#2 [C02]
   replay - replay_templates/c02_binary.sh - : op = e.Operator ; l = tyClassOf(e.Lhs) ; r = tyClassOf(e.Rhs) ; res = ast.resultBin(e.Operator, tyClassOf(e.Lhs), tyClassOf(e.Rhs))
 
 // --- zwischen: three numbers, any mix of Zahl/Kommazahl/Byte, gives a Wahrheitswert ---
-func (*compiler).VisitTernaryExpr [C02]
+func (*compiler).VisitTernaryExpr [C02, C01]
   cases tyClassOf(e.Lhs) in {1, 2, 3}
   cases tyClassOf(e.Mid) in {1, 2, 3}
   cases tyClassOf(e.Rhs) in {1, 2, 3}
@@ -181,7 +181,7 @@ func (*compiler).claimOrCopy
   trusted
   modifies *
 
-func (*compiler).VisitAssignStmt [C02]
+func (*compiler).VisitAssignStmt [C02, C01]
   cases tyClassOf(s.Rhs) in {1, 2, 3}
   cases asgClassOf(s.Var) in {1, 2, 3}
   requires s != nil
